@@ -297,7 +297,7 @@ type runner struct {
 	timeouts int
 	dlBase   time.Duration // deadline of a caller that will be expired = script start + dlBase + dlStep * (index of its Expire step):
 	dlStep   time.Duration // deadlines are ordered like the Expire steps whatever the real pace
-	tainted  bool // a deadline passed before the script reached its Expire step: the run does not count
+	tainted  bool          // a deadline passed before the script reached its Expire step: the run does not count
 }
 
 // parked counts goroutines parked in a select whose stack mentions needle.
